@@ -575,7 +575,6 @@ func ruleModes(c *Ctx) {
 	// defaults before the switch: writable/readable true
 }
 
-
 // ruleIoBuffers: F63–F69.
 func ruleIoBuffers(c *Ctx) {
 	const R = "R19-buffers"
